@@ -1026,3 +1026,145 @@ Proof.
   - eapply subseq_trans; [|apply subseq_map_filter]. rewrite G. apply subseq_app_l.
   - apply subseq_map_filter.
 Qed.
+
+(* ---------- per-sender order in real time ---------- *)
+Lemma visible_split : forall ls log1 log2, visible ls = log1 ++ log2 ->
+  exists l1 l2, ls = l1 ++ l2 /\ visible l1 = log1 /\ visible l2 = log2.
+Proof.
+  induction ls as [|l ls IH]; intros log1 log2 H.
+  - destruct log1; destruct log2; try discriminate. exists [], []. auto.
+  - unfold visible in H. simpl in H. fold (visible ls) in H.
+    destruct (visible1 l) as [|e [|e' r]] eqn:El.
+    + simpl in H. destruct (IH _ _ H) as [l1 [l2 [A [B C]]]]. exists (l :: l1), l2. subst.
+      split; auto. split; auto. unfold visible. simpl. rewrite El. auto.
+    + destruct log1 as [|e1 log1].
+      * exists [], (l :: ls). split; auto. split; auto. unfold visible. simpl. rewrite El. exact H.
+      * simpl in H. inversion H; subst. destruct (IH _ _ H2) as [l1 [l2 [A [B C]]]]. exists (l :: l1), l2. subst.
+        split; auto. split; auto. unfold visible. simpl. rewrite El. auto.
+    + destruct l; simpl in El; discriminate.
+Qed.
+
+Lemma run_split : forall l1 l2 s s', run s (l1 ++ l2) = Some s' -> exists s1, run s l1 = Some s1 /\ run s1 l2 = Some s'.
+Proof.
+  induction l1 as [|l l1 IH]; simpl; intros l2 s s' H.
+  - exists s. auto.
+  - destruct (exec s l) as [s0|]; try discriminate. apply IH; auto.
+Qed.
+
+Lemma count_pos_in : forall v l, (count v l >= 1)%nat -> In v l.
+Proof.
+  induction l as [|x l IH]; simpl; intros H; [lia|].
+  destruct (value_eqb x v) eqn:E; [apply value_eqb_eq in E; auto|]. right. apply IH. lia.
+Qed.
+
+Lemma in_count_pos : forall v l, In v l -> (count v l >= 1)%nat.
+Proof.
+  induction l as [|x l IH]; simpl; intros H; [contradiction|].
+  destruct H as [->|H]; [rewrite value_eqb_refl; lia|]. apply IH in H. lia.
+Qed.
+
+(* thread status versus the log *)
+Definition status_inv (u : tid) (s : state) (b : bool) : Prop :=
+  (find_t u (pend s) <> None -> b = true /\ find_t u (fin s) = None) /\
+  (find_t u (fin s) <> None -> b = true).
+
+Lemma status_step : forall u s l s' b, exec s l = Some s' -> status_inv u s b ->
+  status_inv u s' (open_from b u (visible1 l)).
+Proof.
+  intros u s l s' b H [J1 J2]. destruct l; unfold exec in H.
+  - destruct (busy s t) eqn:Eb; inversion H; subst; clear H. simpl.
+    destruct (u =? t) eqn:E.
+    + apply Z.eqb_eq in E. subst. unfold busy in Eb.
+      destruct (find_t t (pend s)); try discriminate. destruct (find_t t (fin s)) eqn:Ef; try discriminate.
+      split; simpl; intros; auto.
+    + split; simpl; rewrite ?E; auto.
+  - simpl. destruct (apply_act (chs s) a) as [chs1|]; try discriminate.
+    assert (G : forall s0 t0 i0 s1, lin1 s0 t0 a i0 = Some s1 -> status_inv u s0 b -> status_inv u s1 b).
+    { intros s0 t0 i0 s1 Hl [K1 K2]. destruct (lin1_fin _ _ _ _ _ Hl) as [o [r [G1 [G2 [G3 [G4 G5]]]]]].
+      unfold status_inv. rewrite G4, G5. destruct (Z.eq_dec t0 u) as [->|N].
+      - rewrite find_remove_same. simpl. rewrite Z.eqb_refl. split; intros; try congruence.
+        apply K1. congruence.
+      - rewrite find_remove_other by auto. simpl. rewrite neq_eqb_false by auto. auto. }
+    assert (J0 : status_inv u (mkSt chs1 (pend s) (fin s)) b) by (split; auto).
+    destruct a as [| |ts tr c0 v0| | | | | |]; try (eapply G; eauto; fail).
+    destruct (lin1 (mkSt chs1 (pend s) (fin s)) ts (ARdv ts tr c0 v0) i) as [s1|] eqn:E1; try discriminate.
+    eapply G; eauto.
+  - destruct (find_t t (fin s)) as [[o' r']|] eqn:Ef; try discriminate.
+    destruct (op_eqb o o' && res_eqb r r'); inversion H; subst; clear H. simpl.
+    destruct (u =? t) eqn:E.
+    + apply Z.eqb_eq in E. subst. split; simpl.
+      * intros Hp. destruct (J1 Hp) as [_ F]. congruence.
+      * rewrite find_remove_same. congruence.
+    + apply Z.eqb_neq in E. split; simpl; rewrite ?find_remove_other by auto; auto.
+Qed.
+
+Lemma open_from_app : forall u l1 l2 b, open_from b u (l1 ++ l2) = open_from (open_from b u l1) u l2.
+Proof. induction l1 as [|[t o|t o r] l1 IH]; simpl; intros; auto. Qed.
+
+Lemma status_run : forall u ls s s' b, run s ls = Some s' -> status_inv u s b ->
+  status_inv u s' (open_from b u (visible ls)).
+Proof.
+  induction ls as [|l ls IH]; simpl; intros s s' b H J.
+  - inversion H; subst. auto.
+  - destruct (exec s l) as [s1|] eqn:E; try discriminate.
+    unfold visible. simpl. rewrite open_from_app. eapply IH; eauto. eapply status_step; eauto.
+Qed.
+
+Lemma subseq_two_app {A} : forall (x1 x2 : A) R1 R2, In x1 R1 -> In x2 R2 -> subseq [x1; x2] (R1 ++ R2).
+Proof.
+  intros x1 x2 R1 R2 H1 H2.
+  apply in_split in H1. destruct H1 as [a [b ->]]. apply in_split in H2. destruct H2 as [c [d ->]].
+  rewrite <- app_assoc. simpl.
+  assert (P : forall (p : list A) l1 l2, subseq l1 l2 -> subseq l1 (p ++ l2)).
+  { induction p; simpl; intros; auto. constructor. auto. }
+  apply P. constructor. apply P. constructor. apply subseq_nil.
+Qed.
+
+(* if a receive of x1 has returned before receiver rc invoked the operation that received x2, and
+   sender sd sent both, then sd sent x1 first *)
+Definition log_fifo_realtime_stmt : Prop :=
+  forall caps log1 log2, trace_ok caps (log1 ++ log2) = true ->
+  forall c sd rc x1 x2, (c < length caps)%nat -> NoDup (log_sent c (log1 ++ log2)) ->
+    In x1 (log_recvd c log1) ->
+    open_inv rc log1 = false ->
+    In x2 (log_recvd_by rc c log2) ->
+    In x1 (log_sent_by sd c (log1 ++ log2)) -> In x2 (log_sent_by sd c (log1 ++ log2)) ->
+    subseq [x1; x2] (log_sent_by sd c (log1 ++ log2)).
+
+Lemma log_fifo_realtime_lemma : log_fifo_realtime_stmt.
+Proof.
+  intros caps log1 log2 H c sd rc x1 x2 Hc Hnd Hx1 Hopen Hx2 Hs1 Hs2.
+  destruct (trace_ok_run_lemma _ _ H) as [ls [s' [H1 [H2 H3]]]].
+  destruct (visible_split _ _ _ H1) as [l1 [l2 [-> [V1 V2]]]].
+  destruct (run_split _ _ _ _ H2) as [s1 [R1 R2]].
+  assert (Hi : fin_nodup (init caps)) by constructor.
+  (* x1 has been received within l1 *)
+  assert (A1 : In x1 (vals (recvd_on c l1))).
+  { apply count_pos_in. pose proof (run_count false c x1 _ _ _ Hi R1) as C. simpl in C.
+    rewrite on_x_recvd, log_x_recvd, V1 in C. apply in_count_pos in Hx1. lia. }
+  (* rc is idle at the split, so what it receives in log2 is received within l2 *)
+  assert (A2 : In x2 (vals (recvd_on c l2))).
+  { assert (J0 : status_inv rc (init caps) false) by (split; simpl; intros F; congruence).
+    pose proof (status_run rc _ _ _ _ R1 J0) as [_ J2]. rewrite V1 in J2. fold (open_inv rc log1) in J2.
+    assert (Ef : find_t rc (fin s1) = None).
+    { destruct (find_t rc (fin s1)) eqn:E; auto. assert (open_inv rc log1 = true) by (apply J2; congruence). congruence. }
+    pose proof (run_thread false rc c _ _ _ R2) as T. rewrite (quiescent_fin _ H3) in T.
+    unfold fin_by in T. rewrite Ef in T. simpl in T. rewrite app_nil_r in T.
+    rewrite V2, log_x_by_recvd in T. rewrite <- T in Hx2. rewrite thread_x_filter, on_x_recvd in Hx2.
+    eapply subseq_in; [apply subseq_map_filter|exact Hx2]. }
+  (* put together *)
+  pose proof (run_thread true sd c _ _ _ H2) as S. rewrite (quiescent_fin _ H3) in S.
+  unfold fin_by in S. simpl in S. rewrite app_nil_r in S. rewrite H1, log_x_by_sent in S.
+  destruct (chan_run_eq _ _ _ _ H2 Hc) as [ch [_ [G _]]].
+  assert (NV : NoDup (vals (sent_on c (l1 ++ l2)))).
+  { apply count_le1_nodup. intros v.
+    pose proof (run_count true c v _ _ _ Hi H2) as C. rewrite (quiescent_fin _ H3) in C. simpl in C.
+    rewrite on_x_sent, log_x_sent, H1 in C. pose proof (nodup_count_le1 _ Hnd v). lia. }
+  assert (P : subseq (filter (fun v => mem v (log_sent_by sd c (log1 ++ log2))) [x1; x2]) (log_sent_by sd c (log1 ++ log2))).
+  { apply (subseq_common _ NV).
+    - eapply subseq_trans with (l2 := vals (recvd_on c (l1 ++ l2))).
+      + rewrite G. apply subseq_app_l.
+      + unfold recvd_on. rewrite flat_map_app, vals_app. apply subseq_two_app; auto.
+    - rewrite <- S, thread_x_filter, on_x_sent. apply subseq_map_filter. }
+  simpl in P. rewrite (proj2 (mem_in _ _) Hs1), (proj2 (mem_in _ _) Hs2) in P. exact P.
+Qed.
